@@ -623,6 +623,10 @@ func c01ApiValidation(fs *Facts) {
 func c01OpenExisting(fs *Facts, f *File) {
 	if f == nil || f.Func("FileWriter", "openExistingFile") == nil {
 		fs.Tri("openCutsTornTail", Unknown, c01Writer)
+		fs.Tri("openStopsAtZeroSize", Unknown, c01Writer)
+		fs.Tri("openRestartsZeroHeader", Unknown, c01Writer)
+		fs.Tri("openChecksLastBlock", Unknown, c01Writer)
+		fs.Tri("openSparesMidDamage", Unknown, c01Writer)
 		return
 	}
 	fd := f.Func("FileWriter", "openExistingFile")
@@ -647,4 +651,39 @@ func c01OpenExisting(fs *Facts, f *File) {
 	default:
 		fs.Tri("openCutsTornTail", Unknown, where)
 	}
+	// ---- the branches for files the writer alone never leaves behind (each: yes = exactly the
+	// recognised shape, helper functions included; no = the function does not mention it; else unknown)
+	tri := func(absent bool, present bool) Tri {
+		switch {
+		case present:
+			return Yes
+		case absent:
+			return No
+		}
+		return Unknown
+	}
+	helper := func(name, want string) bool {
+		h := f.Func("", name)
+		return h != nil && h.Recv == nil && c29Norm(f, h.Body) == want
+	}
+	fs.Tri("openStopsAtZeroSize",
+		tri(!strings.Contains(b, "next==end") && !strings.Contains(b, "[0:4])==0") && !strings.Contains(b, "==0{break}"),
+			walk && strings.Contains(b, "ifnext>info.Size(){break}ifnext==end+BlockHeaderSize{break}")), where)
+	so := f.Func("FileWriter", "startOver")
+	fs.Tri("openRestartsZeroHeader",
+		tri(!strings.Contains(b, "startOver") && !strings.Contains(b, "bytes.Count("),
+			strings.Contains(b, "ifbytes.Count(headerBuf,[]byte{0})==len(headerBuf){file.Close()returnfw.startOver()}fw.header=&FileHeader{}") &&
+				so != nil && c29Norm(f, so.Body) == "{returnfw.createNewFile()}"), where)
+	fs.Tri("openChecksLastBlock",
+		tri(!strings.Contains(b, "blockIntactAt"),
+			walk && strings.Contains(b, "last,end=end,next}iflast>=0&&!blockIntactAt(file,last,end){end=last}") &&
+				strings.Contains(b, "end,last,bh:=fw.header.DataStartOffset(),int64(-1),make([]byte,BlockHeaderSize)") &&
+				helper("blockIntactAt", "{buf:=make([]byte,end-start)if_,err:=file.ReadAt(buf,start);err!=nil{returnfalse}"+
+					"returnValidateChecksum(buf[BlockHeaderSize:],binary.LittleEndian.Uint32(buf[10:14]))}")), where)
+	fs.Tri("openSparesMidDamage",
+		tri(!strings.Contains(b, "intactBlockBehind"),
+			walk && strings.Contains(b, "ifend<info.Size()&&intactBlockBehind(file,end,info.Size()){file.Close()returnfmt.Errorf(") &&
+				helper("intactBlockBehind", "{ifsize-from>256<<20{returntrue}tail:=make([]byte,size-from)if_,err:=file.ReadAt(tail,from);err!=nil{returntrue}"+
+					"fori:=1;i+BlockHeaderSize<len(tail);i++{n:=int(binary.LittleEndian.Uint32(tail[i:i+4]))ifn==0||n>len(tail)-i-BlockHeaderSize{continue}"+
+					"ifValidateChecksum(tail[i+BlockHeaderSize:i+BlockHeaderSize+n],binary.LittleEndian.Uint32(tail[i+10:i+14])){returntrue}}returnfalse}")), where)
 }
